@@ -4,6 +4,7 @@ import (
 	"os"
 	"os/exec"
 	"path/filepath"
+	"sync"
 	"syscall"
 
 	"github.com/tonistiigi/fsutil"
@@ -15,7 +16,7 @@ func init() {
 	props["C01"] = genC01
 }
 
-// input: (srcView priorView merge srcKind cap differ notify)
+// input: (srcView priorView merge srcKind cap differ notify unpriv [collision])
 //
 //	srcKind 0 = synthetic in-memory FS, 1 = on-disk source through fsutil.NewFS
 //	differ  0 = DiffMetadata, 1 = DiffNone
@@ -60,7 +61,7 @@ func runUnprivileged(entry string, in Sx, work string) Sx {
 	if err := os.WriteFile(inf, []byte(in.String()), 0644); err != nil {
 		panic(err)
 	}
-	exe, _ := os.Executable()
+	exe := c01ChildExe()
 	cmd := exec.Command(exe, "internal", entry, inf, outf, work)
 	cmd.SysProcAttr = &syscall.SysProcAttr{Credential: &syscall.Credential{Uid: unprivID, Gid: unprivID}}
 	if b, err := cmd.CombinedOutput(); err != nil {
@@ -75,6 +76,44 @@ func runUnprivileged(entry string, in Sx, work string) Sx {
 		panic(err)
 	}
 	return o
+}
+
+var (
+	c01ExeOnce sync.Once
+	c01ExePath string
+)
+
+// c01ChildExe returns a path of this executable that the unprivileged user can execute: the
+// executable itself when every ancestor directory is searchable by others, else a copy in a
+// world-searchable scratch directory (made once per process).
+func c01ChildExe() string {
+	c01ExeOnce.Do(func() {
+		exe, _ := os.Executable()
+		c01ExePath = exe
+		ok := true
+		for d := filepath.Dir(exe); d != "/" && d != "."; d = filepath.Dir(d) {
+			if fi, err := os.Stat(d); err != nil || fi.Mode().Perm()&0001 == 0 {
+				ok = false
+			}
+		}
+		if ok {
+			return
+		}
+		dir := WorkDir("c01-exe-")
+		if err := os.Chmod(dir, 0755); err != nil {
+			return
+		}
+		data, err := os.ReadFile(exe)
+		if err != nil {
+			return
+		}
+		cp := filepath.Join(dir, "vh")
+		if err := os.WriteFile(cp, data, 0755); err != nil {
+			return
+		}
+		c01ExePath = cp
+	})
+	return c01ExePath
 }
 
 func init() {
@@ -181,6 +220,15 @@ func mutateView(r *Rng, v []*MNode, o TreeOpts) []*MNode {
 					c.Stat.Linkname = ""
 					c.Stat.Devmajor, c.Stat.Devminor = 0, 0
 					c.Kids = GenView(r, TreeOpts{MaxEntries: 3, MaxDepth: 1, Names: o.Names})
+				}
+			case x == 7 && (n.IsDir() || os.FileMode(n.Stat.Mode)&os.ModeType == 0):
+				// other xattrs, same identity key: a directory keeps them under the new ones
+				// (rewriteMetadata removes nothing), an unchanged file keeps exactly them
+				c.Stat.Xattrs = map[string][]byte{"user.old": []byte("o")}
+				if r.Bool() {
+					for k, v := range n.Stat.Xattrs {
+						c.Stat.Xattrs[k] = append([]byte("x"), v...)
+					}
 				}
 			case x == 6 && !n.IsDir():
 				c.Stat.Mode = uint32(os.ModeSymlink | 0777)
@@ -354,10 +402,59 @@ func genC01(g *Gen) {
 			setOwner(prior, unprivID)
 			cls += "+unpriv"
 		}
-		in := L(ViewSx(src), ViewSx(prior), Bool(merge), NI(srcKind), NI(Pick(r, []int{0, 1, 32, 64})), NI(0), Bool(r.Chance(30)), Bool(unpriv))
-		nontriv := prior != nil && len(WalkEntries(prior)) >= 2
+		coll := c01Collision(src, prior)
+		if coll && !merge {
+			cls = "excluded-identity-collision(" + cls + ")"
+		}
+		in := L(ViewSx(src), ViewSx(prior), Bool(merge), NI(srcKind), NI(Pick(r, []int{0, 1, 32, 64})), NI(0), Bool(r.Chance(30)), Bool(unpriv), Bool(coll))
+		nontriv := prior != nil && len(WalkEntries(prior)) >= 2 && (merge || !coll)
 		g.Emit(0x0101, in, nontriv, cls)
 	}
+}
+
+// c01Collision mirrors Converge.identity_faithful (the hypothesis of C01/C02 in dirty mode): true
+// iff some regular file of the source has an entry at the same path of the prior destination
+// with the same identity key (mode, uid, gid, device numbers, link name, size, mtime) and
+// DIFFERENT bytes.  Such cases are excluded by hypothesis: the generator counts them in a class
+// of their own and passes the flag to the glue, which cross-checks it against its own decision.
+func c01Collision(src, prior []*MNode) bool {
+	type ent struct {
+		st *types.Stat
+		c  []byte
+	}
+	flat := func(roots []*MNode) map[string]ent {
+		out := map[string]ent{}
+		var rec func(dir string, ns []*MNode)
+		rec = func(dir string, ns []*MNode) {
+			for _, n := range ns {
+				p := n.Name
+				if dir != "" {
+					p = dir + "/" + n.Name
+				}
+				out[p] = ent{n.Stat, n.Content}
+				rec(p, n.Kids)
+			}
+		}
+		rec("", roots)
+		return out
+	}
+	pm := flat(prior)
+	for p, e := range flat(src) {
+		m := os.FileMode(e.st.Mode)
+		if m&(os.ModeDir|os.ModeSymlink|os.ModeNamedPipe|os.ModeSocket|os.ModeDevice) != 0 {
+			continue
+		}
+		a, ok := pm[p]
+		if !ok {
+			continue
+		}
+		if a.st.Mode == e.st.Mode && a.st.Uid == e.st.Uid && a.st.Gid == e.st.Gid &&
+			a.st.Devmajor == e.st.Devmajor && a.st.Devminor == e.st.Devminor && a.st.Linkname == e.st.Linkname &&
+			a.st.Size == e.st.Size && a.st.ModTime == e.st.ModTime && string(a.c) != string(e.c) {
+			return true
+		}
+	}
+	return false
 }
 
 func setOwner(ns []*MNode, id uint32) {
